@@ -551,25 +551,36 @@ func runC15(r *Rng, n int, replay string) {
 			emit(c)
 		}
 	}
-	// programs over the model's alphabet (Mkdir, Remove, Stat), explored completely: the set of outcomes vs the model's
+	// programs over the model's alphabet (Mkdir, Remove, Stat, Chmod, Rename of a file), explored completely: the set of outcomes vs the model's
 	for k := 0; k < n/2+4; k++ {
 		ng := 2
 		if r.Intn(5) == 0 {
 			ng = 3
 		}
 		paths := []string{"d", "d/x", "x", "e", "e/g", "f", "f/x", "x/y"}
+		// rename sources are the two files of the start tree; no Mkdir of this program may turn one into a directory
+		// (the model covers the Rename of non-directories only)
+		files := []string{"f", "e/g"}
+		dests := []string{"x", "d/x", "f", "e/g", "x/y", "e/h", "f/x", "."}
 		var prog cProg
 		for g := 0; g < ng; g++ {
 			var ops []Op
 			for i := r.Range(1, 2); i > 0; i-- {
 				p := paths[r.Intn(len(paths))]
-				switch r.Pick(4, 3, 2) {
+				switch r.Pick(4, 3, 2, 2, 2) {
 				case 0:
+					if p == "f" || p == "e/g" {
+						p = "d/x"
+					}
 					ops = append(ops, Op{Kind: "mkdir", P: p, Perm: 0o755})
 				case 1:
 					ops = append(ops, Op{Kind: "remove", P: p})
-				default:
+				case 2:
 					ops = append(ops, Op{Kind: "stat", P: p})
+				case 3:
+					ops = append(ops, Op{Kind: "chmod", P: p, Perm: 0o755})
+				default:
+					ops = append(ops, Op{Kind: "rename", P: files[r.Intn(2)], Q: dests[r.Intn(len(dests))]})
 				}
 			}
 			prog = append(prog, ops)
@@ -586,7 +597,11 @@ func runC15(r *Rng, n int, replay string) {
 			for _, ops := range prog {
 				var oc []string
 				for _, o := range ops {
-					oc = append(oc, map[string]string{"mkdir": "CMkdir ", "remove": "CRemove ", "stat": "CStat "}[o.Kind]+cStr(o.P))
+					if o.Kind == "rename" {
+						oc = append(oc, "CRename "+cStr(o.P)+" "+cStr(o.Q))
+						continue
+					}
+					oc = append(oc, map[string]string{"mkdir": "CMkdir ", "remove": "CRemove ", "stat": "CStat ", "chmod": "CChmod "}[o.Kind]+cStr(o.P))
 				}
 				progC = append(progC, cList(oc))
 			}
